@@ -143,6 +143,26 @@ def run_tlc(module, cfg, workdir_name, workers=8, timeout=1500, env=None, out_fi
     return r
 
 
+def trace_validate(acc, module, cfg, trace_path, name, timeout=1500, heap="8g"):
+    """TLC validates a trace recorded from the real code; returns the RESULT record printed by the trace spec."""
+    r = run_tlc(module, cfg, f"{acc.prop}_{name}", workers=1, timeout=timeout, env={"TRACE": trace_path},
+                coverage=False, heap=heap, dfs=True)
+    if not r.ok:
+        raise ToolError(f"trace validation {module} failed: {r.invariant_violated}\n{r.output[-2500:]}")
+    res = None
+    for line in r.printed:
+        if line.startswith('<<"RESULT", '):
+            lit = line[len('<<"RESULT", '):-2]
+            res = json.loads(json.loads(lit))
+    if res is None:
+        raise ToolError(f"trace validation {module}: no RESULT line\n{r.output[-2000:]}")
+    acc.states += r.distinct
+    acc.transitions += r.generated
+    acc.tlc_runs.append({"run": name, "distinct": r.distinct, "generated": r.generated, "wall_s": round(r.wall, 1),
+                         "result": {k: (v if not isinstance(v, list) else len(v)) for k, v in res.items()}})
+    return res
+
+
 def run_vh(args, timeout=3600, env=None):
     e = dict(os.environ)
     e["VERIF_SEED"] = str(seed())
